@@ -238,3 +238,48 @@ Theorem C15_src_SHAGA_generate_ranges : forall (pop : nat) H HMR HCR str_len ds 
   length MRs = pop /\ length CRs = pop /\ Forall (fun a => 0 < a /\ a <= ZtoQ 5 / ZtoQ str_len) MRs /\ Forall (fun a => 0 <= a /\ a <= 1) CRs.
 Proof. exact src_SHAGA_generate_ranges. Qed.
 Print Assumptions C15_src_SHAGA_generate_ranges.
+
+(* ------------------------------------------------------------------------------------------------
+   THE MEMORY WRITE, THE ARCHIVE AND ACCEPT-ONLY IN THE GENERATION STEP ITSELF.  SHADE / SHAGA / jDE `_get_new_population`, translated on
+   every run (gen/GenLoop.v; random parts as oracles), write the memories exactly as shade_memory_step / shaga_memory_step say, put exactly
+   the strictly improved parents into the archive, and change jDE's per-individual parameters only where the trial was accepted. *)
+From TF Require Import EALoop CodeEqStep CodeEqAdaptStep.
+From TFG Require Import GenLoop.
+Open Scope Z_scope.
+
+Theorem C15_code_shade_memory : forall (G P : Type) (g2p : G -> P) (f : P -> Q) par_value sh_trials sh_generate sh_append (self : SHADE G P),
+  0 <= sh_k G P self -> sh_H_size G P self = zlen (sh_H_F G P self) ->
+  let par := ea_fitness_i G P (sh_ea G P self) in
+  let trial := trial_fit G P g2p f par_value (sh_ea G P self) (sh_trials (sh_pre G P sh_generate self)) in
+  let m' := shade_memory_step (sh_mem G P self) par trial (fst (sh_generate self)) (snd (sh_generate self)) in
+  let self' := sh_new G P g2p f par_value sh_trials sh_generate sh_append self in
+  Forall2 Qeq (sh_H_F G P self') (mem_a m') /\ Forall2 Qeq (sh_H_CR G P self') (mem_b m') /\ sh_k G P self' = Z.of_nat (mem_k m').
+Proof. exact code_shade_memory. Qed.
+Print Assumptions C15_code_shade_memory.
+
+Theorem C15_code_shaga_memory : forall (G P : Type) (g2p : G -> P) (f : P -> Q) par_value sg_trials sg_generate (self : SHAGA G P),
+  0 <= sg_k G P self -> sg_H_size G P self = zlen (sg_H_MR G P self) ->
+  let par := ea_fitness_i G P (sg_ea G P self) in
+  let trial := trial_fit G P g2p f par_value (sg_ea G P self) (sg_trials (sg_pre G P sg_generate self)) in
+  let m' := shaga_memory_step (sg_mem G P self) par trial (fst (sg_generate self)) (snd (sg_generate self)) in
+  let self' := sg_new G P g2p f par_value sg_trials sg_generate self in
+  Forall2 Qeq (sg_H_MR G P self') (mem_a m') /\ Forall2 Qeq (sg_H_CR G P self') (mem_b m') /\ sg_k G P self' = Z.of_nat (mem_k m').
+Proof. exact code_shaga_memory. Qed.
+Print Assumptions C15_code_shaga_memory.
+
+Theorem C15_code_shade_archive : forall (G P : Type) (g2p : G -> P) (f : P -> Q) par_value sh_trials sh_generate sh_append (self : SHADE G P),
+  exists s, sh_population_g_archive_i G P (sh_new G P g2p f par_value sh_trials sh_generate sh_append self)
+  = sh_append s (sh_population_g_archive_i G P self)
+      (successful (ea_fitness_i G P (sh_ea G P self)) (trial_fit G P g2p f par_value (sh_ea G P self) (sh_trials (sh_pre G P sh_generate self)))
+                  (ea_population_g_i G P (sh_ea G P self))).
+Proof. exact code_shade_archive. Qed.
+Print Assumptions C15_code_shade_archive.
+
+Theorem C15_code_jde_accept_only : forall (G P : Type) (g2p : G -> P) (f : P -> Q) par_value jd_trials jd_mutate_F jd_mutate_CR (self : jDE G P),
+  let par := ea_fitness_i G P (jd_ea G P self) in
+  let trial := trial_fit G P g2p f par_value (jd_ea G P self) (jd_trials self (jd_mutate_F self) (jd_mutate_CR self)) in
+  let self' := jd_new G P g2p f par_value jd_trials jd_mutate_F jd_mutate_CR self in
+  jd_F G P self' = accept_only par trial (jd_F G P self) (jd_mutate_F self) /\
+  jd_CR G P self' = accept_only par trial (jd_CR G P self) (jd_mutate_CR self).
+Proof. exact code_jde_accept_only. Qed.
+Print Assumptions C15_code_jde_accept_only.
